@@ -11,6 +11,7 @@
 //   bincopy A B          phreeqc2cxxStorageBin(A) ; cxxStorageBin2phreeqc(B)          -> "ok"
 //   bincopyn A B n       the same for one user number                                  -> "ok"
 //   sercopy A B lo hi    Serializer::Serialize(A, lo..hi, T and P included) ; Deserialize into B -> "ok <nints> <ndoubles>"
+//   serstream A lo hi    the Serializer stream of cells lo..hi (ints, doubles as bit patterns, words)  -> "ser i,..;d,..;w,.."
 //   icopyraw A           Phreeqc copy(*engine of A) (copy constructor -> InternalCopy); dump_raw of the copy -> "raw <hex>"
 //   find T <hexitem> <0|1>   CParser::find_option(item, real vopts of table T, exact)        -> "I <n>"
 //   vopts T                  the real option vector                                            -> "V <hex> ..."
@@ -82,6 +83,18 @@ public:
     cxxStorageBin sb(a->PhreeqcPtr->Get_phrq_io());
     a->PhreeqcPtr->phreeqc2cxxStorageBin(sb, n);
     b->PhreeqcPtr->cxxStorageBin2phreeqc(sb, n);
+  }
+  // the serialisation stream itself (ints, doubles as bit patterns, dictionary words)
+  static std::string serstream(IPhreeqc* a, int lo, int hi) {
+    Serializer s(a->PhreeqcPtr->Get_phrq_io());
+    s.Serialize(*a->PhreeqcPtr, lo, hi, true, true);
+    std::ostringstream o;
+    o << "i";
+    for (size_t k = 0; k < s.GetInts().size(); k++) o << "," << s.GetInts()[k];
+    o << ";d";
+    for (size_t k = 0; k < s.GetDoubles().size(); k++) o << "," << hx::hexd(s.GetDoubles()[k]);
+    o << ";w," << hx::hex(s.GetDictionary().GetDictionaryOss().str());
+    return o.str();
   }
   static std::pair<size_t, size_t> sercopy(IPhreeqc* a, IPhreeqc* b, int lo, int hi) {
     Serializer s(a->PhreeqcPtr->Get_phrq_io());
@@ -202,6 +215,7 @@ int main() {
       TestIPhreeqc::bincopyn(a, inst[w[2]], std::stoi(w[3]));
       std::cout << "ok\n";
     }
+    else if (op == "serstream" && w.size() == 4) std::cout << "ser " << TestIPhreeqc::serstream(a, std::stoi(w[2]), std::stoi(w[3])) << "\n";
     else if (op == "sercopy" && w.size() == 5 && inst.count(w[2])) {
       std::pair<size_t, size_t> r = TestIPhreeqc::sercopy(a, inst[w[2]], std::stoi(w[3]), std::stoi(w[4]));
       std::cout << "ok " << r.first << " " << r.second << "\n";
